@@ -41,6 +41,7 @@ def clock_forms(h, m):
     out = [("HH:MM", "{:02d}:{:02d}".format(h, m)), ("HHhMM", "{:02d}h{:02d}".format(h, m)), ("HH.MM uhr", "{:02d}.{:02d} uhr".format(h, m)), ("HH:MM uhr", "{}:{:02d} Uhr".format(h, m))]
     if h < 10:
         out.append(("H:MM", "{}:{:02d}".format(h, m)))
+    out.append(("H Uhr MM", "{} Uhr {:02d}".format(h, m)))
     h12, ap = _ampm(h)
     out += [
         ("h:mm am", "{}:{:02d} {}".format(h12, m, ap)),
@@ -123,9 +124,59 @@ def pod_forms():
     return out
 
 
+def _pm_shift(bh, name):
+    """the code's convention for '<clock time> <part of day>' (kept as the specification): afternoon/evening/night move an hour below 12 into the second half of the day;
+    the hour after midnight is 'at night' as it stands (0 uhr nachts, quarter to one at night)"""
+    if name in ("afternoon", "evening", "night") and bh < 12:
+        return bh if (bh == 0 and name == "night") else bh + 12
+    return bh
+
+
+def pod_extra_forms():
+    """-> [(key, text, hour, minute)]: hour 0 at night; spoken fractions followed / preceded by a part of day; clock notations followed by the German 'am <part of day>'"""
+    out = []
+    night = dict(vocab.pods())["night"]
+    for a in night:
+        if a.isascii() and a == "night":
+            out.append(("hour 0 in pod", "0:30 at night", 0, 30))
+            out.append(("hour 0 in pod", "00:15 at night", 0, 15))
+        elif a.startswith("nacht"):
+            out.append(("hour 0 in pod", "0 uhr " + a, 0, 0))
+            out.append(("hour 0 in pod", "0:30 uhr " + a, 0, 30))
+            out.append(("hour 0 in pod", "00:15 " + a, 0, 15))
+    words_en = {1: "one", 2: "two", 3: "three", 4: "four", 5: "five", 6: "six", 7: "seven", 8: "eight", 9: "nine", 10: "ten", 11: "eleven", 12: "twelve"}
+    words_de = {1: "eins", 2: "zwei", 3: "drei", 4: "vier", 5: "fünf", 6: "sechs", 7: "sieben", 8: "acht", 9: "neun", 10: "zehn", 11: "elf", 12: "zwölf"}
+    fr = [("quarter to", -1, 45), ("quarter past", 0, 15), ("half past", 0, 30), ("halb", -1, 30), ("viertel vor", -1, 45), ("viertel nach", 0, 15)]
+    pods_en = [("in the morning", "morning"), ("in the afternoon", "afternoon"), ("in the evening", "evening"), ("at night", "night")]
+    pods_de = [("morgens", "morning"), ("nachmittags", "afternoon"), ("abends", "evening"), ("nachts", "night")]
+    for h in range(1, 13):
+        for f, dh, mi in fr:
+            bh = h + dh if h + dh > 0 else 0
+            en = f.isascii() and f != "halb"
+            for hw in (str(h), words_en[h] if en else words_de[h]):
+                for ptxt, name in (pods_en if en else pods_de):
+                    if bh == 12 and name in ("night", "morning"):
+                        continue  # 'quarter past twelve at night / in the morning': the 12 is the hour after midnight for a reader, the hour after noon for the code
+                    exp = _pm_shift(bh, name)
+                    out.append(("fraction in pod", "{} {} {}".format(f, hw, ptxt), exp, mi))
+                    if not en:
+                        out.append(("pod fraction", "{} {} {}".format(ptxt, f, hw), exp, mi))
+    # German 'am <Tageszeit>' after the uhr / h notations ('am' must not be read as a.m.)
+    for noun, name, hours in (("mittag", "noon", (12,)), ("abend", "evening", tuple(range(5, 12))), ("nachmittag", "afternoon", (12, 1, 2, 3, 4, 5, 6))):
+        for h in hours:
+            eh = _pm_shift(h, name)
+            out.append(("uhr am pod", "{} uhr am {}".format(h, noun), eh, 0))
+            out.append(("uhr am pod", "um {} Uhr am {}".format(h, noun.capitalize()), eh, 0))
+            out.append(("uhr am pod", "{}h am {}".format(h, noun), eh, 0))
+            out.append(("uhr am pod", "{}:30 uhr am {}".format(h, noun), eh, 30))
+            out.append(("uhr am pod", "{}.15 uhr am {}".format(h, noun), eh, 15))
+    return out
+
+
 def plan(tier, seed):
     named = named_forms()
     pods = pod_forms()
+    pods = pods + [(k, t, h, m, None, None) for k, t, h, m in pod_extra_forms()]
     days = ["2018-03-07", "2019-12-31", "2019-02-28", "2020-02-29", "2018-04-30"]
     lat_times = [(h, m) for h in range(24) for m in ((0, 30) if tier == "quick" else (0, 1, 30, 59))]
 
@@ -139,7 +190,7 @@ def plan(tier, seed):
         for key, text, h, m, pod, hh in pods:
             yield ("off", key, text, h, m, TS)
         for (h, m) in lat_times:
-            for key, text in clock_forms(h, m)[:1] + [f for f in clock_forms(h, m) if f[0] in ("h:mm am", "H o'clock", "H uhr", "Hh", "h am")]:
+            for key, text in clock_forms(h, m)[:1] + [f for f in clock_forms(h, m) if f[0] in ("h:mm am", "H o'clock", "H uhr", "Hh", "h am", "H Uhr MM")]:
                 for d in days:
                     base = datetime.fromisoformat(d).replace(hour=h, minute=m)
                     for delta, sec in ((-1, 59), (0, 0), (0, 30), (1, 0)):
